@@ -372,19 +372,27 @@ func runBackend(seed uint64, n, shards int, out, tmp string) summary {
 			}
 			distinct[sig] = true
 		}
-		// C14 oracle: inside the contract both backends must answer alike
-		if inContract {
+		// C14 oracle: as long as every call so far is inside the contract (judged on the exact
+		// size and position, not on the generator's guess) both backends must answer alike
+		{
 			s.OracleRuns["bisim"]++
 			a, b := pair[0], pair[1]
 			bad := ""
+			lim := h.FirstOutOfContract(len(init), calls)
+			if lim < len(calls) {
+				s.OracleRuns["sequences-leaving-the-contract"]++
+			}
 			for j := range a.Calls {
+				if j >= lim {
+					break
+				}
 				x, y := a.Calls[j], b.Calls[j]
 				if string(x.RData) != string(y.RData) || x.RN != y.RN || x.RErr != y.RErr {
 					bad = fmt.Sprintf("call %d (%s): buffer replied (%d bytes, %d, err %d), file (%d bytes, %d, err %d)", j, x.Kind, len(x.RData), x.RN, x.RErr, len(y.RData), y.RN, y.RErr)
 					break
 				}
 			}
-			if bad == "" && string(a.Final) != string(b.Final) {
+			if bad == "" && lim == len(calls) && string(a.Final) != string(b.Final) {
 				bad = fmt.Sprintf("final contents differ: buffer %d bytes, file %d bytes", len(a.Final), len(b.Final))
 			}
 			if bad != "" {
